@@ -37,14 +37,14 @@ OPS = ["translate", "scale", "rotate", "reverse", "addExtremes", "splitAtPoints"
 
 # ----------------------------------------------------------------------------- building and running histories
 
-def rand_start(rng):
+def rand_start(rng, small=False):
     n = rng.randint(1, 5)
     closed = rng.random() < 0.5 and n >= 2
     used = set()
 
     def pt():
         while True:
-            p = (float(4 * rng.randint(-60, 60)), float(4 * rng.randint(-60, 60)))
+            p = (float(rng.randint(-12, 12)), float(rng.randint(-12, 12))) if small else (float(4 * rng.randint(-60, 60)), float(4 * rng.randint(-60, 60)))
             if p not in used:
                 used.add(p)
                 return p
@@ -61,13 +61,27 @@ def rand_start(rng):
 def rand_history(rng, maxlen):
     hist = [("new", rand_start(rng))]
     npaths = 1
+    if rng.random() < 0.3:
+        # alias hunting: fractional coordinates, a copy-producing operation, then in-place operations on either of the two paths;
+        # half of the time on a small path (curves shorter than the flattening step become chords)
+        if rng.random() < 0.5:
+            hist = [("new", rand_start(rng, small=True))]
+        hist.append(("translate", 0, (rng.choice([0.5, 0.25, 1.5]), rng.choice([0.5, 0.75, 2.5]))))
+        if rng.random() < 0.5:
+            hist.append(("scale", 0, rng.choice([0.125, 0.25, 0.5])))
+        hist.append(rng.choice([("flatten", 0, 50), ("flatten", 0, 8), ("flatten", 0, 2), ("clone", 0)]))
+        for _ in range(rng.randint(1, 3)):
+            op = rng.choice(["round", "balance", "quadraticsToCubics", "reverse", "removeIrrelevantSegments", "round"])
+            h = rng.randrange(2)
+            hist.append((op, h, 0.02, 30) if op == "removeIrrelevantSegments" else (op, h))
+        return hist
     for _ in range(rng.randint(1, maxlen)):
         op = rng.choice(OPS)
         h = rng.randrange(npaths)
         if op == "translate":
             hist.append((op, h, (float(rng.randint(-50, 50)), float(rng.randint(-50, 50)))))
         elif op == "scale":
-            hist.append((op, h, rng.choice([2.0, 0.5, -1.0, 3.0, 0.25])))
+            hist.append((op, h, rng.choice([2.0, 0.5, -1.0, 3.0, 0.25, 0.125])))
         elif op == "rotate":
             hist.append((op, h, (float(rng.randint(-20, 20)), float(rng.randint(-20, 20))), rng.choice([math.pi / 2, 1.0, -0.7, math.pi])))
         elif op == "splitAtPoints":
@@ -303,8 +317,6 @@ class Run:
         self.dumps.append(self.dump())
         # ---- property verdicts on the implementation
         what = "%s on path %d" % (op, h)
-        # the invariants are claimed for the path the operation is applied to and for the path it returns;
-        # paths that merely share Line objects with the receiver through flatten() are not covered (DESIGN C07)
         self.check_chain(p, what)
         if op in ("clone", "flatten"):
             self.check_chain(self.paths[-1], what)
@@ -322,6 +334,15 @@ class Run:
         for i in self.family[h]:
             if i != h and i < len(before) and vals_of(self.paths[i]) != before[i]:
                 self.fail("after %s: path %d (related to the receiver by clone()) changed: a clone is not independent" % (what, i))
+        # every live path is a path of this history: whatever was done to another one, it is still the same connected chain
+        # (flatten() and append() hand out copies, so nothing an operation is not applied to may move)
+        for i, q in enumerate(self.paths):
+            if i == h or i >= len(before):
+                continue
+            if vals_of(q) != before[i]:
+                self.fail("after %s: path %d, which the operation was not applied to, changed" % (what, i))
+            else:
+                self.check_chain(q, "%s (path %d, not operated on)" % (what, i))
 
 
 def canon(dump):
